@@ -230,6 +230,7 @@ func handleShareMemoryByMemFd(s *Session, h header) error {
 	}
 	if len(fds) < memfdCount {
 		s.logger.warnf("ParseUnixRights len fds:%d", len(fds))
+		closeReceivedFds(fds)
 		return errors.New("the number of memfd received is wrong")
 	}
 
@@ -240,11 +241,14 @@ func handleShareMemoryByMemFd(s *Session, h header) error {
 	//4.mapping share memory
 	qm, err := mappingQueueManagerMemfd(queuePath, queueFd)
 	if err != nil {
+		closeReceivedFds(fds)
 		return err
 	}
+	// from here on queueFd is owned by the queue manager (closed by its unmap)
 	s.queueManager = qm
 	bm, err := getGlobalBufferManagerWithMemFd(bufferPath, bufferFd, 0, false, nil)
 	if err != nil {
+		_ = syscall.Close(bufferFd)
 		return err
 	}
 
@@ -252,6 +256,13 @@ func handleShareMemoryByMemFd(s *Session, h header) error {
 	s.handshakeDone = true
 	s.logger.infof("handleShareMemoryByMemFd done")
 	return nil
+}
+
+// closeReceivedFds closes descriptors received over SCM_RIGHTS that no manager took ownership of.
+func closeReceivedFds(fds []int) {
+	for _, fd := range fds {
+		_ = syscall.Close(fd)
+	}
 }
 
 func handlePolling(s *Session, hdr header, buf []byte) (int, bool, error) {
